@@ -33,7 +33,15 @@ fn us(s: &str) -> Option<usize> {
     s.parse().ok()
 }
 
-const NFORMS: usize = 8;
+const NFORMS: usize = 10;
+
+fn volute_table_size(n: usize) -> usize {
+    if n <= 6 {
+        1
+    } else {
+        1 << (n - 6)
+    }
+}
 
 /// history step (C02); `None` = malformed token
 fn hist_step<T: L>(n: usize, regs: &mut Vec<T>, tok: &str) -> Option<()> {
@@ -59,6 +67,18 @@ fn hist_step<T: L>(n: usize, regs: &mut Vec<T>, tok: &str) -> Option<()> {
             match T::from_hex_(n, &s) {
                 Ok(l) => l,
                 Err(()) => return Some(()),
+            }
+        }
+        ("conv", 4) => {
+            // a dynamic table of n2 variables converted into the register type
+            let n2 = us(ps[2])?;
+            let w = parse_words(&ps[3].replace(';', ","))?;
+            if w.len() != volute_table_size(n2) {
+                return None;
+            }
+            match T::conv_from_dyn(n, volute::Lut::from_blocks(n2, &w)) {
+                Some(l) => l,
+                None => return Some(()),
             }
         }
         ("mov", 3) => r(ps[2], regs)?,
